@@ -294,7 +294,12 @@ pub fn gen_session(seed: u64, run: u64, thorough: bool) -> Session {
             }
             13..=14 if disk_budget > 0 => {
                 disk_budget -= 1;
-                let (d, tag): (DiskOp, &str) = match rng.below(7) {
+                let (d, tag): (DiskOp, &str) = match rng.below(12) {
+                    7 => (DiskOp::MkDir { path: "src/b.gleam".into() }, "disk.file_replaced_by_directory"),
+                    8 => (DiskOp::Symlink { path: "src/loop".into(), target: "src".into() }, "disk.symlink_loop"),
+                    9 => (DiskOp::Symlink { path: "src/b.gleam".into(), target: "src/gone.gleam".into() }, "disk.dangling_symlink"),
+                    10 => (DiskOp::Fifo { path: "src/b.gleam".into() }, "disk.fifo_in_place_of_file"),
+                    11 => (DiskOp::Symlink { path: "gleam.toml".into(), target: "src".into() }, "disk.gleam_toml_is_directory_link"),
                     0 => (DiskOp::Remove { path: "src/b.gleam".into() }, "disk.file_removed"),
                     1 => (DiskOp::RemoveDir { path: "src".into() }, "disk.src_dir_removed"),
                     2 => (DiskOp::Remove { path: "gleam.toml".into() }, "disk.gleam_toml_removed"),
@@ -345,15 +350,21 @@ pub fn gen_session(seed: u64, run: u64, thorough: bool) -> Session {
         ops.push(PlannedOp::new(Op::ProbeText { uri: u.clone() }));
     }
     ops.push(PlannedOp::new(Op::Barrier));
+    // One session in three is not polite: the client does not wait for the server between
+    // messages (probes and the final questions still wait for quiescence), so the invalid
+    // messages meet requests and diagnostics in flight.
+    let sequential = !rng.chance(1, 3);
     Session {
         property: "C15".into(),
         seed,
         run,
         hash_seed,
-        concurrency: *rng.pick(&[1, 2, 4, 16]),
-        gran: Granularity::Coarse,
-        policy: "sequential".into(),
-        sequential: true,
+        // limits below the number of requests that can be in flight would only reproduce the known
+        // concurrency-limit finding of C16 when the client does not wait
+        concurrency: if sequential { *rng.pick(&[1, 2, 4, 16]) } else { 256 },
+        gran: if sequential { Granularity::Coarse } else { *rng.pick(&[Granularity::Coarse, Granularity::CheckOnly, Granularity::EveryK(5)]) },
+        policy: if sequential { "sequential".into() } else { "seeded".into() },
+        sequential,
         root,
         tree,
         ops,
@@ -519,6 +530,8 @@ fn op_kinds(op: &Op, states: &BTreeMap<String, BTreeSet<Option<String>>>) -> Vec
             DiskOp::Remove { .. } => "remove_file",
             DiskOp::RemoveDir { .. } => "remove_dir",
             DiskOp::MkDir { .. } => "mkdir",
+            DiskOp::Symlink { .. } => "symlink",
+            DiskOp::Fifo { .. } => "fifo",
         })],
         Op::Barrier | Op::ProbeText { .. } => Vec::new(),
     }
